@@ -1,12 +1,12 @@
 package main
 
-const idxNote = "trusted base: go/ssa, the interp fork, SMT encodings of Go int/float ops, plain-Go models of roaring.Bitmap / BSI (differentially validated against the real library), insertion-sort model of sort.Slice (exact for n<=12), sync.Pool = LIFO, z3 4.8.12 / cvc5 1.0.3; NaN distances produced by overflow are excluded by assumption"
+const idxNote = "trusted base: go/ssa, the interp fork, SMT encodings of Go int/float ops, plain-Go models of roaring.Bitmap / BSI (differentially validated against the real library), sort.Slice = the standard library's own pdqsort_func (copied source) driven by the real less closure, sync.Pool = LIFO, z3 4.8.12 / cvc5 1.0.3; NaN distances produced by overflow are excluded by assumption"
 
 var idxAssumptions = []string{
 	"T1: float arithmetic uninterpreted (sound over-approximation: every real execution is a T1 model); T2 (cvc5, bit-precise) only to refute or concretise T1 models",
 	"distances recomputed by the harness are assumed non-NaN (finite vectors; NaN arises only through overflow)",
 	"roaring.Bitmap replaced by a plain-Go set model inside the engine; native replay uses the real library",
-	"sort.Slice = insertion sort with the real less closure (exact for n<=12); sync.Pool.Get returns the most recently Put object",
+	"sort.Slice and sort.SliceStable run the standard library's own pdqsort_func / stable_func (go1.24.2 source copied into the engine) with the real less closure, so tie order and instability beyond 12 elements are the real ones; sync.Pool.Get returns the most recently Put object",
 	"ids are concrete (the code only tests them for equality / membership / bitmap order); explicit ids are used out of insertion order",
 }
 
